@@ -198,9 +198,11 @@ func Execute(
 		for i := 1; i < attempt; i++ {
 			multiplier *= config.BackoffFactor
 		}
-		backoff := time.Duration(float64(config.InitialBackoff) * multiplier)
-		if backoff > config.MaxBackoff {
-			backoff = config.MaxBackoff
+		// Cap in the float domain: converting a product beyond the int64 range to
+		// time.Duration overflows (to a negative duration, i.e. no wait at all).
+		backoff := config.MaxBackoff
+		if backoffFloat := float64(config.InitialBackoff) * multiplier; backoffFloat < float64(config.MaxBackoff) {
+			backoff = time.Duration(backoffFloat)
 		}
 
 		// Wait before retry
